@@ -19,7 +19,7 @@ b = s.index("-------------------------------------------------------------------
 s = s[:a] + out + "\n" + s[b:]
 n = len(rows)
 det = sum(1 for r in rows if r[4] == "yes")
-s = re.sub(r"`seeded/TABLE.md` \(\d+ defects:[^)]*\)\.", f"`seeded/TABLE.md` ({n} defects: 19 × 3 first round, a second adversarial round for all 19 properties, a third \"rare by construction\" round for 14, a fourth with mechanisms not used before for 14, a fifth for C15 and C17, one more for C15 and C03, and a final \"forgotten clause / obscure cell\" round of two each for C02, C07, C10, C12, C13, C14, C16).", s)
+s = re.sub(r"`seeded/TABLE.md` \(\d+ defects:[^)]*\)\.", f"`seeded/TABLE.md` ({n} defects: 19 × 3 first round, a second adversarial round for all 19 properties, a third \"rare by construction\" round for 14, a fourth with mechanisms not used before for 14, a fifth for C15 and C17, one more for C15 and C03, and a final \"forgotten clause / obscure cell\" round of two each for C02, C07, C10, C12, C13, C14, C16, C19).", s)
 s = re.sub(r"\*\*Result: \d+ of \d+ are caught", f"**Result: {det} of {n} are caught", s)
 open("/verif/DESIGN.md", "w").write(s)
 open("/verif/seeded/TABLE.md", "w").write(out)
